@@ -119,6 +119,108 @@ def gen_items(rng):
     return items[:7]
 
 
+# ---- indices on their own: one content, many construction routes (shared / separate level objects) ---------------
+
+def _hier_routes(labels):
+    '''construction routes applicable to these depth-2 tuple labels (already in tree order)'''
+    py = [P.dec(l) for l in labels]
+    outer = []
+    for o, _ in py:
+        if o not in outer:
+            outer.append(o)
+    inner = {o: [i for oo, i in py if oo == o] for o in outer}
+    first = inner[outer[0]]
+    product = all(inner[o] == first for o in outer)
+    R = ['from_labels', 'from_labels_copy', 'from_tree', 'from_index_items_separate', 'level_add_drop', 'from_frame_columns']
+    if product:
+        R += ['from_product', 'from_product', 'from_index_items_shared', 'from_product_copy']
+    return R, outer, inner, first
+
+
+def build_index_item(item):
+    cls = getattr(sf, item['cls'])
+    name = P.dec(item['name'])
+    labels = item['index']
+    if item['depth'] == 1:
+        return cls([P.dec(l) for l in labels], name=name)
+    py = [P.dec(l) for l in labels]
+    R, outer, inner, first = _hier_routes(labels)
+    route = item['route'] if item['route'] in R else 'from_labels'
+    if route == 'from_labels':
+        return cls.from_labels(py, name=name)
+    if route == 'from_labels_copy':
+        return cls.from_labels(py, name=name).copy()
+    if route == 'from_tree':
+        return cls.from_tree({o: inner[o] for o in outer}, name=name)
+    if route == 'from_index_items_separate':
+        return cls.from_index_items(((o, sf.Index(inner[o])) for o in outer)).rename(name)
+    if route == 'from_index_items_shared':
+        shared = sf.Index(first)
+        return cls.from_index_items(((o, shared) for o in outer)).rename(name)
+    if route == 'from_product':
+        return cls.from_product(outer, first, name=name)
+    if route == 'from_product_copy':
+        return cls.from_product(outer, first, name=name).copy()
+    if route == 'level_add_drop':
+        return cls.from_labels(py).level_add('X').level_drop(1).rename(name)
+    if route == 'from_frame_columns':
+        f = sf.Frame.from_records([[0] * len(py)], columns=sf.IndexHierarchy.from_labels(py))
+        ih = f.columns
+        return ih.rename(name) if cls is sf.IndexHierarchy else cls(ih, name=name)
+    raise ValueError(route)
+
+
+def gen_index_items(rng):
+    '''a family of indices: the same content through several routes, plus single-point mutants (one label under an
+    early / late parent, one label dropped, name, class)'''
+    name = rng.choice([['none'], ['s', 'nm']])
+    if rng.random() < 0.3:
+        labels = C.rand_labels(rng, rng.randint(0, 4), rng.choice(['str', 'int']))
+        base = {'kind': 'index', 'cls': rng.choice(['Index', 'IndexGO']), 'name': name, 'index': labels, 'depth': 1, 'route': 'flat'}
+        items = [base, dict(base), dict(base, cls='IndexGO' if base['cls'] == 'Index' else 'Index'), dict(base, name=['s', 'other'])]
+        if labels:
+            m = copy.deepcopy(base)
+            m['index'][rng.randrange(len(labels))] = ['s', 'ZZ'] if labels[0][0] == 's' else ['i', 999]
+            items.append(m)
+            m = copy.deepcopy(base)
+            m['index'].pop()
+            items.append(m)
+            m = copy.deepcopy(base)
+            m['index'] = list(reversed(m['index']))
+            items.append(m)
+    else:
+        outer = rng.sample([['s', 'x'], ['s', 'y'], ['s', 'z']], rng.randint(2, 3))
+        pool = [['i', 1], ['i', 2], ['i', 3]]
+        first = rng.sample(pool, rng.randint(1, 3))
+        if rng.random() < 0.65:
+            inner = [list(first) for _ in outer]
+        else:
+            inner = [rng.sample(pool, rng.randint(1, 3)) for _ in outer]
+        labels = [['t', [o, i]] for o, ins in zip(outer, inner) for i in ins]
+        base = {'kind': 'index', 'cls': rng.choice(['IndexHierarchy', 'IndexHierarchy', 'IndexHierarchyGO']), 'name': name, 'index': labels, 'depth': 2, 'route': 'from_labels'}
+        routes = _hier_routes(labels)[0]
+        items = [dict(base, route=rng.choice(routes)) for _ in range(3)]
+        # one label changed under ONE parent (early parents first: siblings are walked last to first)
+        for _ in range(3):
+            m = copy.deepcopy(base)
+            k = rng.randrange(len(outer)) if rng.random() < 0.4 else 0
+            rows = [i for i, l in enumerate(m['index']) if l[1][0] == outer[k]]
+            taken = [m['index'][i][1][1] for i in rows]
+            free = [x for x in pool + [['i', 9]] if x not in taken]
+            if free:
+                m['index'][rng.choice(rows)][1][1] = rng.choice(free)
+            m['route'] = rng.choice(['from_labels', 'from_tree', 'from_index_items_separate'])
+            items.append(m)
+        m = copy.deepcopy(base)
+        if len(m['index']) > 1:
+            m['index'].pop()
+            items.append(m)
+        items.append(dict(base, name=['s', 'other'], route=rng.choice(routes)))
+        items.append(dict(base, cls='IndexHierarchyGO' if base['cls'] == 'IndexHierarchy' else 'IndexHierarchy', route=rng.choice(routes)))
+    rng.shuffle(items)
+    return items[:8]
+
+
 def layouts_for_item(rng, it):
     if it['kind'] != 'frame':
         return None
@@ -151,9 +253,16 @@ def main(ctx):
                 ctx.sample({'leg': 'R', 'case': cs, 'expected': exp})
         ctx.exhaustive = not quick
     events = []
-    for i in range(400 if quick else 8000):
-        items = gen_items(ctx.rng)
-        objs = [build(it, layouts_for_item(ctx.rng, it)) for it in items]
+    for i in range(520 if quick else 10000):
+        if i % 4 == 3:
+            items = gen_index_items(ctx.rng)
+            objs = [build_index_item(it) for it in items]
+            for it, o in zip(items, objs):
+                it['dt'] = [P.enc_dtype(o.values.dtype)] if it['depth'] == 1 else [P.enc_dtype(x) for x in o.dtypes.values]
+            ctx.count('V_index_family')
+        else:
+            items = gen_items(ctx.rng)
+            objs = [build(it, layouts_for_item(ctx.rng, it)) for it in items]
         opts = {'name': ctx.rng.random() < 0.3, 'dtype': ctx.rng.random() < 0.3, 'class': ctx.rng.random() < 0.3, 'skipna': ctx.rng.random() < 0.7}
         kw = dict(compare_name=opts['name'], compare_dtype=opts['dtype'], compare_class=opts['class'], skipna=opts['skipna'])
         try:
@@ -164,7 +273,7 @@ def main(ctx):
         events.append({'id': len(events), 'kind': 'matrix', 'items': items, 'm': m, 'opts': opts})
         ctx.count('V_matrix')
         he = [(it, o) for it, o in zip(items, objs) if it['cls'].endswith('HE')]
-        if i % 3 == 0:
+        if i % 3 == 0 and items[0]['kind'] != 'index':
             # HE variants of every item
             hitems = [dict(it, cls='SeriesHE' if it['kind'] == 'series' else 'FrameHE') for it in items]
             # equal labels held in differently stored index arrays are the same labels: == and hash must not see the storage
